@@ -545,4 +545,18 @@ MUTANTS += [
           thread_context->increment_failure_counter();
         }
         return false;"""},
+    {"id": "c12-revert-f16", "props": ["C12"], "file": "quill/backend/BackendWorker.h",
+     "desc": "runtime metadata is not applied on the named-arguments branch again (finding F16 comes back)",
+     "old": """    if (transit_event->macro_metadata->event() != MacroMetadata::Event::LogWithRuntimeMetadata)
+    {
+      return;
+    }
+
+    _apply_runtime_metadata(transit_event);""",
+     "new": """    if (true || transit_event->macro_metadata->event() != MacroMetadata::Event::LogWithRuntimeMetadata)
+    {
+      return;
+    }
+
+    _apply_runtime_metadata(transit_event);"""},
 ]
